@@ -59,7 +59,7 @@ func (e *Exec) callSummarised(caller *frame, pos token.Pos, fn *ssa.Function, fi
 	abort := func() {
 		e.model = nil
 		e.local = nil
-		e.pc = e.pc[:pcLen]
+		e.truncPC(pcLen)
 		e.undoTo(jLen)
 		e.stats.SummaryAborts++
 		if !replaying {
@@ -132,7 +132,7 @@ func (e *Exec) callSummarised(caller *frame, pos token.Pos, fn *ssa.Function, fi
 			sr.writes[j.addr] = *j.addr
 		}
 		e.undoTo(jLen)
-		e.pc = e.pc[:pcLen]
+		e.truncPC(pcLen)
 		results = append(results, sr)
 	}
 	if !replaying {
